@@ -92,7 +92,8 @@ def run_seq_with_tasks(laze, files, steps):
             for p in (nlog, tlog):
                 if os.path.exists(p): os.remove(p)
             env = e2e.clean_env(tmp)
-            env.update(PATH=bindir + ":" + env.get("PATH", ""), LAZE_VERIF_NINJA_LOG=nlog, LAZE_VERIF_NINJA_RC=str(st.get("ninja_rc", 0)),
+            # "missing": there is no ninja to start at all (laze has to report that, with a non-zero exit status)
+            env.update(PATH=("" if st.get("ninja_rc") == "missing" else bindir + ":") + env.get("PATH", ""), LAZE_VERIF_NINJA_LOG=nlog, LAZE_VERIF_NINJA_RC=str(st.get("ninja_rc", 0)),
                        LAZE_VERIF_TASK_SCRIPT=ts, LAZE_VERIF_TASK_LOG=tlog)
             env.update(st.get("env", {}))
             try:
@@ -102,7 +103,8 @@ def run_seq_with_tasks(laze, files, steps):
                 rc, so, se = "timeout", "", ""
             argvs = [ln.split("\x1f") if ln else [] for ln in open(nlog).read().split("\n")[:-1]] if os.path.exists(nlog) else []
             tasks = [tuple(ln.split(" ", 1)) for ln in open(tlog).read().splitlines()] if os.path.exists(tlog) else []
-            out.append(dict(rc=rc, stdout=so, stderr=se, ninja_argv=argvs, tasks=tasks, root=root, argv=args[1:], cache_hit=e2e.was_cache_hit(e2e.take_events(tmp), so)))
+            out.append(dict(rc=rc, stdout=so, stderr=se, ninja_argv=argvs, tasks=tasks, root=root, argv=args[1:], cache_hit=e2e.was_cache_hit(e2e.take_events(tmp), so),
+                            ninja_missing=(st.get("ninja_rc") == "missing")))
         return out
     finally:
         shutil.rmtree(tmp, ignore_errors=True)
@@ -127,6 +129,8 @@ def compare(o, m):
     if m["kind"] != "ok":
         return ["model outcome %s %s" % (m["kind"], m.get("tag"))]
     if o["rc"] != m["exit"]: d.append("exit status %s, model %s" % (o["rc"], m["exit"]))
-    if o["ninja_argv"] != m["ninja"]: d.append("ninja invocations %s, model %s" % (o["ninja_argv"], m["ninja"]))
+    if o.get("ninja_missing"):
+        if o["ninja_argv"]: d.append("a ninja was started although none is on PATH: %s" % o["ninja_argv"])
+    elif o["ninja_argv"] != m["ninja"]: d.append("ninja invocations %s, model %s" % (o["ninja_argv"], m["ninja"]))
     if [tuple(x) for x in o["tasks"]] != m["tasks"]: d.append("executed tasks %s, model %s" % (o["tasks"], m["tasks"]))
     return d
